@@ -8,19 +8,31 @@
 // OpenBtree via kit/sopx). For every cell of the grid
 //
 //	value type {bytes, map, ints, pstruct} x value placement {innode, separate, sepcached, sepactive}
+//	x last write of the items {add, update} (separate placements only, see "storage class" below)
 //	x read API {GetCurrentValue, GetCurrentItem (mutate through Item.Value), GetCurrentItem + overwrite *Item.Value}
 //	x positioning {Find, First} x ending {rollback, commit-of-a-writer-txn-without-writes, commit-of-a-reader-txn}
 //
 // a committed store is read, the returned value is mutated in place and NOT written back, the
 // transaction ends, and a later transaction of the same process reads every key again. The oracle is
-// the canonical JSON text of the value captured BEFORE it was handed to Add.
+// the canonical JSON text of the value captured BEFORE it was handed to Add/Update.
 //
-// Violation classes (signatures):
+// Storage class (third signature segment). What decides whether a value can leak is where the read path
+// finds it, and on the tree as built that depends on more than the store option: an item written by Add
+// keeps a copy of its value INSIDE the B-tree node blob even in the separate-segment placements (the
+// item-action tracker nullifies its own *Item, the node slot holds a copy), and for the placements
+// separate/sepcached the same is observed after Update; only with sepactive (actively persisted) does an
+// updated item really get its value fetched from the separate segment by every transaction. The grid
+// therefore runs the separate placements under two workloads and names the cell by placement and workload,
+// not by a claimed storage: <placement> (items written by Add) and <placement>-updated (every item updated
+// once, in a second transaction, after the Add).
 //
-//	C38:<valuetype>:<placement>:<readapi>:later-txn-sees-mutation     a later transaction reads the mutated value
-//	C38:<valuetype>:<placement>:<readapi>:same-txn-sees-mutation      a later read of the SAME transaction returns the mutated value
-//	C38:<valuetype>:<placement>:<readapi>:durable-after-unrelated-write  a later writer that only touched ANOTHER key
-//	                                                                  made the never-written mutation durable (cold process reads it)
+// Violation classes (signatures; the read API is NOT part of the signature, all three APIs hand out the
+// same shared storage; it is in the violation detail and in the evidence leak matrix):
+//
+//	C38:<valuetype>:<storageclass>:later-txn-sees-mutation        a later transaction reads the mutated value
+//	C38:<valuetype>:<storageclass>:same-txn-sees-mutation         a later read of the SAME transaction returns the mutated value
+//	C38:<valuetype>:<storageclass>:durable-after-unrelated-write  a later writer that only touched ANOTHER key
+//	                                                              made the never-written mutation durable (cold process reads it)
 //
 // NOT counted as C38 violations (recorded in evidence only, the statement speaks of values "obtained
 // from a store read"): the writer side - mutating the caller's own v after Add(k, v)/Update(k, v) +
@@ -153,6 +165,7 @@ type caseSpec struct {
 	Scenario     string       `json:"scenario"` // read | persist | writer
 	VT           string       `json:"value_type"`
 	Profile      sopx.Profile `json:"placement"`
+	LastWrite    string       `json:"items_last_written_by"` // add | update
 	API          string       `json:"read_api,omitempty"`
 	Pos          string       `json:"positioning,omitempty"`
 	End          string       `json:"ending,omitempty"`
@@ -187,34 +200,47 @@ func modeOf(end string) sop.TransactionMode {
 	return sop.ForWriting
 }
 
-// genValues draws the case's values (the first use of the case PRNG, in parent and child alike).
-func genValues[V any](vt vtype[V], c caseSpec, rnd *rand.Rand) []V {
-	vals := make([]V, c.Items)
-	for i := range vals {
-		vals[i] = vt.gen(rnd, i)
+// genValues draws the case's values (the first use of the case PRNG, in parent and child alike):
+// the values handed to Add and, when the case wants the items updated afterwards, the values handed
+// to Update (nil otherwise). The committed state is final[i] = updates[i] if updates != nil else adds[i].
+func genValues[V any](vt vtype[V], c caseSpec, rnd *rand.Rand) (adds, updates []V) {
+	adds = make([]V, c.Items)
+	for i := range adds {
+		adds[i] = vt.gen(rnd, i)
 	}
-	return vals
+	if c.LastWrite == "update" {
+		updates = make([]V, c.Items)
+		for i := range updates {
+			updates[i] = vt.gen(rnd, 500+i)
+		}
+	}
+	return
 }
 
-// populate creates the store and commits c.Items generated values; returns the expected canonical
-// JSON per key (captured BEFORE Add) and the caller-side originals (for the writer-side class).
+// populate creates the store and commits c.Items generated values (and updates every one of them in a
+// second transaction when c.LastWrite is "update"); returns the expected canonical JSON per key (captured
+// BEFORE Add/Update) and the caller-side originals (for the writer-side class).
 // With c.ColdPopulate the store is written by a child process, so this process's caches are filled
 // by the read path only (the caller-side originals then never touch this process's cache).
 func populate[V any](d sopx.DB, vt vtype[V], c caseSpec, rnd *rand.Rand) (map[string]string, map[string]V, error) {
-	vals := genValues(vt, c, rnd)
+	adds, updates := genValues(vt, c, rnd)
+	final := adds
+	if updates != nil {
+		final = updates
+	}
 	want := map[string]string{}
 	orig := map[string]V{}
-	for i, v := range vals {
+	for i, v := range final {
 		want[key(i)] = show(v)
 		orig[key(i)] = v
 	}
 	if c.ColdPopulate {
 		return want, orig, coldPopulate(d.Dir, c)
 	}
-	return want, orig, populateWith(d, c, vals)
+	return want, orig, populateWith(d, c, adds, updates)
 }
 
-func populateWith[V any](d sopx.DB, c caseSpec, vals []V) error {
+func populateWith[V any](d sopx.DB, c caseSpec, adds, updates []V) error {
 	t, err := d.Begin(sop.ForWriting)
 	if err != nil {
 		return fmt.Errorf("begin: %w", err)
@@ -224,7 +250,7 @@ func populateWith[V any](d sopx.DB, c caseSpec, vals []V) error {
 		t.Rollback(sopx.Ctx)
 		return fmt.Errorf("newbtree: %w", err)
 	}
-	for i, v := range vals {
+	for i, v := range adds {
 		ok, err := b.Add(sopx.Ctx, key(i), v)
 		if err != nil || !ok {
 			t.Rollback(sopx.Ctx)
@@ -233,6 +259,25 @@ func populateWith[V any](d sopx.DB, c caseSpec, vals []V) error {
 	}
 	if err := t.Commit(sopx.Ctx); err != nil {
 		return fmt.Errorf("commit: %w", err)
+	}
+	if updates == nil {
+		return nil
+	}
+	if t, err = d.Begin(sop.ForWriting); err != nil {
+		return fmt.Errorf("begin updater: %w", err)
+	}
+	if b, err = sopx.Open[string, V](d, t, storeName); err != nil {
+		return fmt.Errorf("open in updater: %w", err)
+	}
+	for i, v := range updates {
+		ok, err := b.Update(sopx.Ctx, key(i), v)
+		if err != nil || !ok {
+			t.Rollback(sopx.Ctx)
+			return fmt.Errorf("update %s: ok=%v err=%v", key(i), ok, err)
+		}
+	}
+	if err := t.Commit(sopx.Ctx); err != nil {
+		return fmt.Errorf("commit updater: %w", err)
 	}
 	return nil
 }
@@ -434,8 +479,8 @@ func runRead[V any](vt vtype[V], c caseSpec) (o outcome) {
 		dd["observed_later_txn"] = got[target]
 		dd["caller_view_after_mutation"] = after
 		// cold process (once per signature): is the committed value still what the disk holds?
-		if !firstOf(sig(c, "later-txn-sees-mutation")) {
-			dd["cold_process_reads"] = "(not taken: an earlier case with this signature has it)"
+		if !firstOf(storageClass(c) + ":later-txn-sees-mutation") {
+			dd["cold_process_reads"] = "(not taken: an earlier case of this storage class has it)"
 		} else if cold, cerr := coldRead(dir, vt.name, target); cerr == nil {
 			dd["cold_process_reads"] = cold
 			dd["disk_intact"] = cold == want[target]
@@ -587,8 +632,16 @@ func firstOf(sg string) bool {
 	return true
 }
 
+// storageClass names where the read path finds the value (see the package comment).
+func storageClass(c caseSpec) string {
+	if c.LastWrite == "update" && c.Profile != sopx.InNode {
+		return string(c.Profile) + "-updated"
+	}
+	return string(c.Profile)
+}
+
 func sig(c caseSpec, outcomeClass string) string {
-	return fmt.Sprintf("C38:%s:%s:%s:%s", c.VT, c.Profile, c.API, outcomeClass)
+	return fmt.Sprintf("C38:%s:%s:%s", c.VT, storageClass(c), outcomeClass)
 }
 
 func clone(m map[string]any) map[string]any {
@@ -608,7 +661,8 @@ func init() {
 
 func childPopulateT[V any](dir string, vt vtype[V], c caseSpec) int {
 	rnd := env.Rand(c.Seed, c.Salt)
-	if err := populateWith(sopx.NewDB(dir), c, genValues(vt, c, rnd)); err != nil {
+	adds, updates := genValues(vt, c, rnd)
+	if err := populateWith(sopx.NewDB(dir), c, adds, updates); err != nil {
 		fmt.Println("ERR", err)
 		return proc.ExitHarness
 	}
@@ -717,19 +771,22 @@ func coldRead(dir, vtName, k string) (string, error) {
 
 // ---- driver ----
 
-const rule = "grid case = (value type in {bytes,map,ints,pstruct}) x (placement in the 4 sopx profiles) x (read API in " +
-	"{GetCurrentValue, GetCurrentItem, GetCurrentItem-assign}) x (positioning Find|First) x (ending rollback|commit-writer|commit-reader); " +
-	"plus scenario 'persist' (mutate, rollback, unrelated write to another key, cold-process read) per value type x placement x API, " +
-	"plus the writer-side class (evidence only). Slot length, item count (1..3.5 x slot: single- and multi-node trees), target key, " +
-	"warm-read, population by a child process (1 in 6 read cases) and same-txn re-read are PRNG-chosen from VERIF_SEED. Fingerprint = scenario:valuetype:placement:api:positioning:ending. " +
+const rule = "grid cell = (value type in {bytes,map,ints,pstruct}) x (storage class in {innode, separate, sepcached, sepactive [items written by Add], " +
+	"separate-updated, sepcached-updated, sepactive-updated [every item updated once after the Add]}); per cell 6 'read' cases = (read API in " +
+	"{GetCurrentValue, GetCurrentItem, GetCurrentItem-assign}) x (2 of the endings rollback|commit-writer|commit-reader, rotating with the API) with positioning Find|First alternating " +
+	"(thorough: all 3 endings x both positionings, 2 repetitions), scenario 'persist' (mutate, rollback, unrelated write to another key of the same node, cold-process read) for every second (value type, cell) pair (thorough: every cell x API), " +
+	"plus the writer-side class per value type x placement (evidence only). Slot length, item count (1..3.5 x slot: single- and multi-node trees), target key, " +
+	"warm-read is PRNG-chosen from VERIF_SEED; the store is populated by a child process in one read case of every second (value type, cell) pair (thorough: 1 in 6 read cases, PRNG); every second case re-reads inside the mutating transaction. Fingerprint = scenario:valuetype:storageclass:api:positioning:ending. " +
 	"A case is non-trivial when the read returned exactly the committed value, the in-place modification changed the caller's view, " +
 	"no write-back happened, the transaction ended without error and the later transaction read every key."
 
 var assumptions = []string{
 	"standalone database (in-memory L2), one process, one folder per case; the later transaction runs in the SAME process (the statement's scope)",
-	"values are compared by canonical JSON (json.Marshal, sorted map keys) against the text captured before Add",
+	"values are compared by canonical JSON (json.Marshal, sorted map keys) against the text captured before Add/Update",
+	"'this transaction later reads' of the statement is taken literally: a re-read inside the mutating transaction must return the committed value too (same-txn-sees-mutation)",
 	"the writer-side class (caller mutates its own v after Add/Update+Commit) is recorded in evidence and never reported as a C38 violation",
 	"the cold child read is used only to tell 'cache aliasing, disk intact' from 'mutation made durable'",
+	"string/scalar value types are out of scope of the grid (the statement quantifies over reference-typed values); they are reachable only through GetCurrentItem's Item.Value pointer",
 }
 
 type runner func(c caseSpec) (outcome, bool)
@@ -760,7 +817,7 @@ func dispatchT[V any](vt vtype[V], c caseSpec) (outcome, bool) {
 
 func Run(r *report.Run) int {
 	rnd := env.Rand(r.Seed, "c38-plan")
-	reps := r.Pick(1, 3)
+	reps := r.Pick(1, 2)
 	slots := []int{2, 4, 8, 16}
 	var cases []caseSpec
 	n := 0
@@ -773,27 +830,55 @@ func Run(r *report.Run) int {
 			c.Items = 2 + rnd.Intn(c.Slot-1)
 		}
 		c.Warm = rnd.Intn(2) == 0
-		c.Reread = rnd.Intn(2) == 0
-		c.ColdPopulate = c.Scenario == "read" && rnd.Intn(6) == 0
+		c.Reread = n%2 == 0 // alternating: every cell gets re-read cases at every seed
+		if r.Thorough() {
+			c.ColdPopulate = c.Scenario == "read" && rnd.Intn(6) == 0
+		}
 		c.Seed = r.Seed
 		c.Salt = fmt.Sprintf("c38-case-%d", n)
 		n++
 		cases = append(cases, c)
 	}
 	vts := []string{"bytes", "map", "ints", "pstruct"}
+	type cellT struct {
+		p  sopx.Profile
+		lw string
+	}
+	var cells []cellT
+	for _, p := range sopx.Profiles {
+		cells = append(cells, cellT{p, "add"})
+	}
+	for _, p := range sopx.Profiles {
+		if p != sopx.InNode {
+			cells = append(cells, cellT{p, "update"})
+		}
+	}
+	flip := 0
 	for rep := 0; rep < reps; rep++ {
-		for _, vt := range vts {
-			for _, p := range sopx.Profiles {
-				for _, api := range apis {
-					for _, pos := range poss {
-						for _, end := range ends {
-							mk(caseSpec{Scenario: "read", VT: vt, Profile: p, API: api, Pos: pos, End: end})
+		for vi, vt := range vts {
+			for ci, cell := range cells {
+				for ai, api := range apis {
+					for ei, end := range ends {
+						if r.Thorough() {
+							for _, pos := range poss {
+								mk(caseSpec{Scenario: "read", VT: vt, Profile: cell.p, LastWrite: cell.lw, API: api, Pos: pos, End: end})
+							}
+						} else if ei != (ai+2)%len(ends) { // quick: 2 of the 3 endings per API, rotating, so every ending meets every cell
+							// quick: one child-populated case for every second (value type, cell) pair (the others get the persist case)
+							cold := (vi+ci)%2 == 1 && ai == (vi+ci/2)%len(apis) && ei == ai
+							mk(caseSpec{Scenario: "read", VT: vt, Profile: cell.p, LastWrite: cell.lw, API: api, Pos: poss[flip%2], End: end, ColdPopulate: cold})
+							flip++
 						}
 					}
-					mk(caseSpec{Scenario: "persist", VT: vt, Profile: p, API: api, Pos: "find", End: "rollback"})
+					// quick: one persist case for every second (value type, cell) pair, API rotating
+					if r.Thorough() || ((vi+ci)%2 == 0 && ai == (vi+ci/2)%len(apis)) {
+						mk(caseSpec{Scenario: "persist", VT: vt, Profile: cell.p, LastWrite: cell.lw, API: api, Pos: "find", End: "rollback"})
+					}
 				}
-				for _, op := range []string{"add", "update"} {
-					mk(caseSpec{Scenario: "writer", VT: vt, Profile: p, WriterOp: op})
+				if cell.lw == "add" {
+					for _, op := range []string{"add", "update"} {
+						mk(caseSpec{Scenario: "writer", VT: vt, Profile: cell.p, LastWrite: "add", WriterOp: op})
+					}
 				}
 			}
 		}
@@ -801,7 +886,7 @@ func Run(r *report.Run) int {
 	if only := os.Getenv("VERIF_C38_ONLY"); only != "" { // development aid: "<valuetype>:<placement>" prefix filter
 		var kept []caseSpec
 		for _, c := range cases {
-			if strings.HasPrefix(fmt.Sprintf("%s:%s:%s:%s", c.VT, c.Profile, c.Scenario, c.API), only) {
+			if strings.HasPrefix(fmt.Sprintf("%s:%s:%s:%s", c.VT, storageClass(c), c.Scenario, c.API), only) {
 				kept = append(kept, c)
 			}
 		}
@@ -820,7 +905,7 @@ func Run(r *report.Run) int {
 
 	for _, c := range cases {
 		o, wleak := dispatch(c)
-		fp := fmt.Sprintf("%s:%s:%s:%s:%s:%s%s", c.Scenario, c.VT, c.Profile, c.API, c.Pos, c.End, c.WriterOp)
+		fp := fmt.Sprintf("%s:%s:%s:%s:%s:%s%s", c.Scenario, c.VT, storageClass(c), c.API, c.Pos, c.End, c.WriterOp)
 		if o.broken != "" {
 			r.Inconclusive("case-unusable")
 			r.Count("unusable_cases", 1)
@@ -846,7 +931,7 @@ func Run(r *report.Run) int {
 			}
 			continue
 		}
-		cell := fmt.Sprintf("%s:%s:%s", c.VT, c.Profile, c.API)
+		cell := fmt.Sprintf("%s:%s:%s", c.VT, storageClass(c), c.API)
 		seen := map[string]bool{}
 		for _, v := range o.violations {
 			r.Violation(v.sig, v.detail)
@@ -885,6 +970,6 @@ func Run(r *report.Run) int {
 	}
 	r.Set("leak_matrix", leakMatrix)
 	r.Set("writer_side", writerSide)
-	// the quick grid has 4*4*(3*2*3 + 3 + 2) = 368 classes; demand most of them
-	return r.Finish(rule, assumptions, 300)
+	// the quick grid has 4*7*6 read + 14 persist + 32 writer = 214 classes; demand most of them
+	return r.Finish(rule, assumptions, 180)
 }
